@@ -279,7 +279,7 @@ class Gen:
                     [d + "s.td", shared]], d + "main.td"
         if shape == 6:
             return [[d + "main.td", self.program(2) + '\ninclude "missing.td"\ninclude "a.td"\n' + self.program(2)],
-                    [d + "a.td", 'include "a.td"\n' + self.program(2) if self.chance(0.3) else self.program(2)]], d + "main.td"
+                    [d + "a.td", self.program(2)]], d + "main.td"
         return [[d + "main.td", self.program(1) + '\nforeach i = [1] in { include "a.td" }\nlet x = 1 in { include "sub/b.td" }\n' + self.program(2)],
                 [d + "a.td", self.program(2)], [d + "sub/b.td", 'include "c.td"\n' + self.program(2)],
                 [d + "sub/c.td", self.program(2)]], d + "main.td"
